@@ -579,3 +579,273 @@ Lemma step_log_inv g w : log_inv g -> log_inv (step g w).
 Proof. intros H. destruct (step_lev g w) as [H1 H2]. unfold log_inv. rewrite H2. eapply levo_ok; [exact H1|exact H]. Qed.
 Theorem log_inv_all_schedules g sched : log_inv g -> log_inv (run g sched).
 Proof. apply run_inv. apply step_log_inv. Qed.
+
+(* ---------------------------------------------------------------- accounts_volumes: row locks (two-phase locking) *)
+(* what ONE store call of writer w can do to the volumes table: insert a row for a key that has none, rewrite rows that are
+   free or its own (never a row locked by somebody else), remove its own in-flight rows *)
+Inductive vevo (w : wid) : list vrow -> list vrow -> Prop :=
+| ve_refl l : vevo w l l
+| ve_app l row : vfind l (v_key row) = None -> v_lock row = Some w -> vevo w l (l ++ [row])
+| ve_map l f :
+    (forall x, v_key (f x) = v_key x) ->
+    (forall x h, v_lock x = Some h -> h <> w -> f x = x) ->
+    (forall x, v_lock (f x) = None -> (v_pend (f x) = 0 /\ v_upd (f x) = false) \/ f x = x) ->
+    (forall x, v_new x = false -> v_new (f x) = false) -> vevo w l (map f l)
+| ve_filter l p : (forall x, p x = false -> v_new x = true /\ v_lock x = Some w) -> vevo w l (filter p l)
+| ve_trans l1 l2 l3 : vevo w l1 l2 -> vevo w l2 l3 -> vevo w l1 l3.
+
+Lemma ckey_eqb_eq a b : ckey_eqb a b = true <-> a = b.
+Proof.
+  destruct a as [a1 a2], b as [b1 b2]; unfold ckey_eqb; simpl.
+  rewrite andb_true_iff, !String.eqb_eq. split; [intros [-> ->]; reflexivity | intros H; inversion H; auto].
+Qed.
+Lemma ckey_eqb_refl a : ckey_eqb a a = true.
+Proof. apply ckey_eqb_eq; reflexivity. Qed.
+
+Lemma vfind_key vs k r : vfind vs k = Some r -> v_key r = k /\ In r vs.
+Proof. unfold vfind. intros H. apply find_some in H. destruct H as [Hi Hk]. apply ckey_eqb_eq in Hk. auto. Qed.
+
+Lemma vfind_app_some vs k r row : vfind vs k = Some r -> vfind (vs ++ [row]) k = Some r.
+Proof. unfold vfind. induction vs as [|x t IH]; simpl; [discriminate|]. destruct (ckey_eqb (v_key x) k); auto. Qed.
+Lemma vfind_app_none vs k row : vfind vs k = None -> vfind (vs ++ [row]) k = if ckey_eqb (v_key row) k then Some row else None.
+Proof. unfold vfind. induction vs as [|x t IH]; simpl; auto. destruct (ckey_eqb (v_key x) k); [discriminate|auto]. Qed.
+Lemma vfind_map vs k f : (forall x, v_key (f x) = v_key x) -> vfind (map f vs) k = option_map f (vfind vs k).
+Proof. intros Hk. unfold vfind. induction vs as [|x t IH]; simpl; auto. rewrite Hk. destruct (ckey_eqb (v_key x) k); auto. Qed.
+Lemma vfind_filter vs k p r : vfind vs k = Some r -> p r = true -> vfind (filter p vs) k = Some r.
+Proof.
+  unfold vfind. induction vs as [|x t IH]; simpl; [discriminate|]. destruct (ckey_eqb (v_key x) k) eqn:E.
+  - intros H Hp. inversion H; subst. rewrite Hp. simpl. rewrite E. reflexivity.
+  - intros H Hp. destruct (p x); simpl; [rewrite E|]; auto.
+Qed.
+
+(* a row locked by another writer is not touched *)
+Lemma vevo_frame w l l' : vevo w l l' -> forall k r h, vfind l k = Some r -> v_lock r = Some h -> h <> w -> vfind l' k = Some r.
+Proof.
+  induction 1 as [l|l row Hn Hl|l f Hk Ho Hu Hnw|l p Hp|l1 l2 l3 _ IH1 _ IH2]; intros k r h Hf Hlk Hne; auto.
+  - apply vfind_app_some; auto.
+  - rewrite vfind_map by auto. rewrite Hf. simpl. rewrite (Ho r h); auto.
+  - apply vfind_filter; auto. destruct (p r) eqn:E; auto. destruct (Hp r E) as [_ H]. congruence.
+  - eauto.
+Qed.
+(* unlocked rows carry no pending change *)
+Definition unlocked_clean (l : list vrow) : Prop := forall r, In r l -> v_lock r = None -> v_pend r = 0 /\ v_upd r = false.
+Lemma vevo_clean w l l' : vevo w l l' -> unlocked_clean l -> unlocked_clean l'.
+Proof.
+  induction 1 as [l|l row Hn Hl|l f Hk Ho Hu Hnw|l p Hp|l1 l2 l3 _ IH1 _ IH2]; intros U; auto.
+  - intros r Hr Hlk. apply in_app_iff in Hr. destruct Hr as [Hr|[Hr|[]]]; [auto|]. subst. congruence.
+  - intros r Hr Hlk. apply in_map_iff in Hr. destruct Hr as [x [Hx Hin]]. subst. destruct (Hu x Hlk) as [H|H]; auto.
+    rewrite H in *. auto.
+  - intros r Hr. apply filter_In in Hr. apply U; tauto.
+Qed.
+(* a committed row never disappears *)
+Lemma vevo_exists w l l' : vevo w l l' -> forall k r, vfind l k = Some r -> v_new r = false -> exists r', vfind l' k = Some r' /\ v_new r' = false.
+Proof.
+  induction 1 as [l|l row Hn Hl|l f Hk Ho Hu Hnw|l p Hp|l1 l2 l3 _ IH1 _ IH2]; intros k r Hf Hnew; eauto.
+  - exists r. split; auto. apply vfind_app_some; auto.
+  - exists (f r). rewrite vfind_map by auto. rewrite Hf. simpl. auto.
+  - exists r. split; auto. apply vfind_filter; auto. destruct (p r) eqn:E; auto. destruct (Hp r E) as [H _]. congruence.
+  - destruct (IH1 k r Hf Hnew) as [r1 [H1 H2]]. eauto.
+Qed.
+
+Definition vev (w : wid) (g g' : gst) : Prop := vevo w (g_vols g) (g_vols g').
+Lemma vev_same w g g' : g_vols g' = g_vols g -> vev w g g'.
+Proof. unfold vev. intros ->. apply ve_refl. Qed.
+Lemma vev_trans w g1 g2 g3 : vev w g1 g2 -> vev w g2 g3 -> vev w g1 g3.
+Proof. unfold vev. intros. eapply ve_trans; eauto. Qed.
+
+Lemma owner_is_other h w : h <> w -> owner_is (Some h) w = false.
+Proof. intros H. simpl. apply Nat.eqb_neq; auto. Qed.
+
+Lemma vev_abort g w : vev w g (abort g w).
+Proof.
+  unfold vev, abort; simpl. eapply ve_trans; [apply ve_filter|apply ve_map].
+  - intros x Hx. apply negb_false_iff in Hx. apply andb_true_iff in Hx. destruct Hx as [H1 H2]. split; auto. apply owner_is_true; auto.
+  - intros x. unfold v_release. destruct (owner_is _ _); reflexivity.
+  - intros x h Hl Hne. unfold v_release. rewrite Hl, owner_is_other; auto.
+  - intros x. unfold v_release. destruct (owner_is (v_lock x) w); simpl; auto.
+  - intros x Hn. unfold v_release. destruct (owner_is _ _); simpl; auto.
+Qed.
+Lemma vev_blocked g w h l : vev w g (blocked g w h l).
+Proof. unfold blocked. destruct (reaches _ _ _ _); [apply (vev_abort g w)|apply vev_same; reflexivity]. Qed.
+Lemma vev_bal_done g w o r lk : vev w g (bal_done g w o r lk).
+Proof. unfold bal_done. brk; apply vev_same; reflexivity. Qed.
+
+Lemma free_for_other w x h : v_lock x = Some h -> h <> w -> free_for w x = false.
+Proof. unfold free_for. intros -> H. apply Nat.eqb_neq; auto. Qed.
+
+Lemma vevo_vtake w l k f :
+  (forall x, v_key (f x) = v_key x) -> (forall x, v_lock (f x) = Some w) -> (forall x, v_new (f x) = v_new x) -> vevo w l (vtake l w k f).
+Proof.
+  intros Hk Hl Hn. unfold vtake. apply ve_map.
+  - intros x. destruct (_ && _); auto.
+  - intros x h Hx Hne. rewrite (free_for_other w x h); auto. rewrite andb_false_r. reflexivity.
+  - intros x. destruct (_ && _); auto. rewrite Hl. discriminate.
+  - intros x Hx. destruct (_ && _); auto. rewrite Hn; auto.
+Qed.
+
+Lemma vev_vol_loop ks : forall g w i, vev w g (vol_loop g w ks i).
+Proof.
+  induction ks as [|[k d] r IH]; simpl; intros g w i.
+  - apply vev_same; reflexivity.
+  - destruct (vfind (g_vols g) k) as [x|] eqn:Hf.
+    + assert (Htake : vev w g (set_vols g (vtake (g_vols g) w k (fun x0 => {| v_key := v_key x0; v_bal := v_bal x0;
+                 v_pend := if v_upd x0 then v_pend x0 else v_pend x0 + d; v_lock := Some w; v_new := v_new x0; v_upd := true |})))).
+      { unfold vev; simpl. apply vevo_vtake; auto. }
+      destruct (v_lock x) as [h|].
+      * destruct (Nat.eqb h w).
+        -- eapply vev_trans; [exact Htake|apply IH].
+        -- eapply vev_trans; [|apply vev_blocked]. apply vev_same; reflexivity.
+      * eapply vev_trans; [exact Htake|apply IH].
+    + eapply vev_trans; [|apply IH]. unfold vev; simpl. apply ve_app; auto.
+Qed.
+
+Lemma vev_do_bal g w s : vev w g (do_bal g w s).
+Proof.
+  unfold do_bal. destruct (vfind (g_vols g) (src_key (w_op s))) as [x|] eqn:Hf.
+  - brk;
+    try (eapply vev_trans; [|apply vev_blocked]; apply vev_same; reflexivity);
+    try (unfold ev; match goal with |- vev ?w ?g (set_ev (bal_done ?g1 ?w ?o ?r ?lk) _) =>
+           apply (vev_trans w g g1); [|pose proof (vev_bal_done g1 w o r lk) as H; unfold vev in *; simpl in *; exact H] end;
+         first [apply vev_same; reflexivity | unfold vev; simpl; apply vevo_vtake; auto]).
+  - unfold ev. match goal with |- vev ?w ?g (set_ev (bal_done ?g1 ?w ?o ?r ?lk) _) =>
+       apply (vev_trans w g g1); [|pose proof (vev_bal_done g1 w o r lk) as H; unfold vev in *; simpl in *; exact H] end.
+    unfold vev; simpl. apply ve_app; auto.
+Qed.
+
+Lemma step_vev g w : vev w g (step g w).
+Proof.
+  unfold step. destruct (get_w g w) as [s|]; [|apply vev_same; reflexivity].
+  destruct (w_pc s).
+  - unfold do_ik. brk; apply vev_same; reflexivity.
+  - unfold do_rev. brk; try (apply vev_blocked); apply vev_same; reflexivity.
+  - apply vev_do_bal.
+  - apply vev_vol_loop.
+  - unfold do_tx. destruct (my_pending_tx g w); brk; try (apply vev_same; reflexivity);
+      try (match goal with |- vev ?w ?g (blocked ?g1 ?w ?h ?l) => pose proof (vev_blocked g1 w h l) as H; unfold vev in *; simpl in *; exact H end);
+      try (match goal with |- vev ?w ?g (ev (fail_abort ?g1 ?w ?e) _ _ _) => pose proof (vev_abort g1 w) as H; unfold vev in *; simpl in *; exact H end).
+  - unfold do_adv. brk; try (apply vev_blocked); apply vev_same; reflexivity.
+  - unfold do_log. destruct (g_hash g && negb (owner_is (g_adv g) w)); [apply vev_same; reflexivity|].
+    destruct (my_pending_log g w); brk; try (apply vev_same; reflexivity);
+      try (match goal with |- vev ?w ?g (blocked ?g1 ?w ?h ?l) => pose proof (vev_blocked g1 w h l) as H; unfold vev in *; simpl in *; exact H end);
+      try (match goal with |- vev ?w ?g (ev (fail_abort ?g1 ?w ?e) _ _ _) => pose proof (vev_abort g1 w) as H; unfold vev in *; simpl in *; exact H end).
+  - unfold do_commit, vev; simpl. apply ve_map.
+    + intros x. unfold v_commit. destruct (owner_is _ _); reflexivity.
+    + intros x h Hl Hne. unfold v_commit. rewrite Hl, owner_is_other; auto.
+    + intros x. unfold v_commit. destruct (owner_is (v_lock x) w); simpl; auto.
+    + intros x Hn. unfold v_commit. destruct (owner_is _ _); simpl; auto.
+  - unfold do_rollback. pose proof (vev_abort g w) as H. brk; unfold vev in *; simpl in *; exact H.
+  - unfold do_fetch. brk; apply vev_same; reflexivity.
+  - apply vev_same; reflexivity.
+Qed.
+
+(* ---------------------------------------------------------------- writers: a step of w leaves the others alone *)
+Lemma nth_upd_same {A} (l : list A) w f : nth_error (upd_nth l w f) w = option_map f (nth_error l w).
+Proof. revert w. induction l as [|x r IH]; intros [|w]; simpl; auto. Qed.
+Lemma nth_upd_other {A} (l : list A) w w0 f : w0 <> w -> nth_error (upd_nth l w f) w0 = nth_error l w0.
+Proof. revert w w0. induction l as [|x r IH]; intros [|w] [|w0] H; simpl; auto; try congruence. Qed.
+Lemma nth_clear ws h w : nth_error (clear_waits ws h) w = option_map (fun s => if owner_is (w_wait s) h then wset_wait s None else s) (nth_error ws w).
+Proof. unfold clear_waits. apply nth_error_map. Qed.
+
+Definition wcore (s : wst) := (w_op s, w_pc s, w_read s, w_locked s, w_norow s).
+Definition wsev (w : wid) (ws ws' : list wst) : Prop :=
+  forall w0, w0 <> w -> option_map wcore (nth_error ws' w0) = option_map wcore (nth_error ws w0).
+(* wev: the other writers are untouched (up to their wake-up); fev: and no C06 record is added *)
+Definition wev (w : wid) (g g' : gst) : Prop := wsev w (g_ws g) (g_ws g').
+Definition fev (w : wid) (g g' : gst) : Prop := wsev w (g_ws g) (g_ws g') /\ g_c06 g' = g_c06 g.
+
+Lemma wsev_refl w ws : wsev w ws ws.
+Proof. intros w0 _. reflexivity. Qed.
+Lemma wsev_trans w a b c : wsev w a b -> wsev w b c -> wsev w a c.
+Proof. intros H1 H2 w0 Hn. rewrite H2, H1; auto. Qed.
+Lemma wsev_upd w ws f : wsev w ws (upd_nth ws w f).
+Proof. intros w0 Hn. rewrite nth_upd_other; auto. Qed.
+Lemma wsev_clear w ws h : wsev w ws (clear_waits ws h).
+Proof. intros w0 _. rewrite nth_clear. destruct (nth_error ws w0) as [s|]; simpl; auto. destruct (owner_is _ _); reflexivity. Qed.
+
+Lemma fev_same w g g' : g_ws g' = g_ws g -> g_c06 g' = g_c06 g -> fev w g g'.
+Proof. unfold fev. intros -> ->. split; [apply wsev_refl|reflexivity]. Qed.
+Lemma fev_trans w g1 g2 g3 : fev w g1 g2 -> fev w g2 g3 -> fev w g1 g3.
+Proof. unfold fev. intros [A B] [C D]. split; [eapply wsev_trans; eauto|congruence]. Qed.
+Lemma fev_upd w g f : fev w g (upd_w g w f).
+Proof. unfold fev, upd_w; simpl. split; [apply wsev_upd|reflexivity]. Qed.
+Lemma fev_ev w g g' w1 l st : fev w g g' -> fev w g (ev g' w1 l st).
+Proof. unfold fev, ev; simpl. auto. Qed.
+Lemma fev_abort g w : fev w g (abort g w).
+Proof. unfold fev, abort; simpl. split; [apply wsev_clear|reflexivity]. Qed.
+Lemma fev_fail_abort g w e : fev w g (fail_abort g w e).
+Proof. unfold fail_abort. eapply fev_trans; [apply fev_abort|apply fev_upd]. Qed.
+Lemma fev_fail_soft g w e : fev w g (fail_soft g w e).
+Proof. apply fev_upd. Qed.
+Lemma fev_blocked g w h l : fev w g (blocked g w h l).
+Proof. unfold blocked. destruct (reaches _ _ _ _); apply fev_ev; [apply fev_fail_abort|apply fev_upd]. Qed.
+Lemma fev_bal_done g w o r lk : fev w g (bal_done g w o r lk).
+Proof. unfold bal_done. brk; repeat (first [apply fev_upd | apply fev_fail_soft | eapply fev_trans; [apply fev_upd|]]). Qed.
+Lemma fev_set_vols w g v : fev w g (set_vols g v).
+Proof. apply fev_same; reflexivity. Qed.
+
+Lemma fev_vol_loop ks : forall g w i, fev w g (vol_loop g w ks i).
+Proof.
+  induction ks as [|[k d] r IH]; simpl; intros g w i.
+  - apply fev_ev. eapply fev_trans; [apply fev_upd|apply fev_same; reflexivity].
+  - brk; try (eapply fev_trans; [apply fev_set_vols|apply IH]).
+    eapply fev_trans; [apply fev_upd|apply fev_blocked].
+Qed.
+
+Lemma fev_do_bal g w s : fev w g (do_bal g w s).
+Proof.
+  unfold do_bal. brk;
+    try (eapply fev_trans; [apply fev_upd|apply fev_blocked]);
+    try (apply fev_ev; first [apply fev_bal_done | eapply fev_trans; [apply fev_set_vols|apply fev_bal_done]]).
+Qed.
+
+Lemma fev_ws w g g' : g_c06 g' = g_c06 g -> (exists f, g_ws g' = upd_nth (g_ws g) w f) -> fev w g g'.
+Proof. intros Hc [f Hf]. unfold fev. rewrite Hf. split; [apply wsev_upd|exact Hc]. Qed.
+
+Ltac fev_tac := repeat first [ apply fev_ev | apply fev_upd | apply fev_fail_soft | apply fev_fail_abort | apply fev_blocked
+                             | apply fev_same; reflexivity | (apply fev_ws; [reflexivity|eexists; reflexivity]) ].
+
+Lemma fev_do_tx g w s : fev w g (do_tx g w s).
+Proof.
+  unfold do_tx. destruct (my_pending_tx g w).
+  - brk; fev_tac.
+  - set (row := {| t_id := g_ntx g; t_ref := tx_ref (w_op s); t_own := Some w; t_rev := false; t_revlock := None; t_pend := true |}).
+    set (g1 := upd_w (set_ntx (set_txs g (g_txs g ++ [row])) (g_ntx g + 1)) w (fun s0 => wset_txid s0 (Some (g_ntx g)))).
+    assert (H1 : fev w g g1) by (unfold g1; fev_tac).
+    brk; (eapply fev_trans; [exact H1|]); fev_tac.
+Qed.
+Lemma fev_do_log g w s : fev w g (do_log g w s).
+Proof.
+  unfold do_log. destruct (g_hash g && negb (owner_is (g_adv g) w)); [apply fev_same; reflexivity|].
+  destruct (my_pending_log g w).
+  - brk; fev_tac.
+  - set (row := {| l_id := g_nlog g; l_ik := o_ik (w_op s); l_inh := o_inh (w_op s); l_own := Some w;
+                   l_tx := match w_txid s with Some i => i | None => 0 end; l_pend := true |}).
+    set (g1 := upd_w (set_nlog (set_logs g (g_logs g ++ [row])) (g_nlog g + 1)) w (fun s0 => wset_logid s0 (Some (g_nlog g)))).
+    assert (H1 : fev w g g1) by (unfold g1; fev_tac).
+    brk; (eapply fev_trans; [exact H1|]); fev_tac.
+Qed.
+
+(* every store call except COMMIT *)
+Lemma step_fev g w s : get_w g w = Some s -> w_pc s <> PCommit -> fev w g (step g w).
+Proof.
+  intros Hs Hpc. unfold step. rewrite Hs. destruct (w_pc s); try congruence.
+  - unfold do_ik. brk; fev_tac.
+  - unfold do_rev. brk; fev_tac.
+  - apply fev_do_bal.
+  - apply fev_vol_loop.
+  - apply fev_do_tx.
+  - unfold do_adv. brk; fev_tac.
+  - apply fev_do_log.
+  - unfold do_rollback. brk; apply fev_ev; (eapply fev_trans; [apply fev_abort|apply fev_upd]).
+  - unfold do_fetch. brk; fev_tac.
+  - apply fev_same; reflexivity.
+Qed.
+Lemma commit_wev g w s : wev w g (do_commit g w s).
+Proof. unfold wev, do_commit; simpl. eapply wsev_trans; [apply wsev_clear|apply wsev_upd]. Qed.
+Lemma step_wev g w : wev w g (step g w).
+Proof.
+  unfold step. destruct (get_w g w) as [s|] eqn:Hs; [|apply wsev_refl].
+  destruct (w_pc s) eqn:Hpc; try (assert (H : fev w g (step g w)) by (apply (step_fev g w s); auto; congruence);
+    unfold step in H; rewrite Hs, Hpc in H; exact (proj1 H)).
+  apply commit_wev.
+Qed.
